@@ -3,3 +3,4 @@ import Props.C03
 import Props.C15
 import Props.C16
 import Props.C17
+import Props.C19
